@@ -213,6 +213,7 @@ def obligations(tier):
     if thorough:
         seq.append(dict(k=6, fire=False, with_ctrl=False))
         seq.append(dict(k=6, fire=True, with_ctrl=False))
+        seq.append(dict(k=7, fire=False, with_ctrl=False))
     mid = [dict(op=op, L=L, fin=fin) for op in (8, 9, 10) for L in (0, 1, 2, 125, 126) for fin in (0, 1)]
     return [
         Obligation("P-first", p_first, first,
